@@ -973,6 +973,16 @@ def lb_at(body, bb, t, depth=0):
             d = const_eval(t[3])
             if d:
                 v = lb_at(body, bb, t[2], depth + 1) // d
+        elif op == "Sub":
+            # a - b >= 1 when a guard on every path gives b < a; >= lb(a) - ub(b) otherwise
+            if any(implies_lt(cond, pol, t[3], t[2]) for _, cond, pol in _cmp_guards(body, bb)):
+                v = 1
+            else:
+                ub = tree_ub_at(body, bb, t[3])
+                if ub is not None:
+                    v = max(0, lb_at(body, bb, t[2], depth + 1) - ub)
+        elif op == "Shl":
+            v = 1 if lb_at(body, bb, t[2], depth + 1) >= 1 else 0      # overflow of the shift itself is a separate assert
     elif k == "phi":
         vs = [lb_at(body, bb, a, depth + 1) for a in t[1] if isinstance(a, tuple)]
         v = min(vs) if vs else 0
